@@ -315,11 +315,33 @@ pub fn lane_state(seed: u64, n: usize) -> Vec<Scenario> {
             tests.push(g.test(&plan, &mut sim.programs));
         }
         random_faults(&mut g, &mut sim, n_tests as u32);
+        let mut d = doc("state.md", Format::Md, tests);
+        // `detached` from the document defaults, switched off again inline on some test cases
+        if g.chance(12) {
+            d.defaults.detached = Some(true);
+            for t in d.tests.iter_mut() {
+                if g.chance(50) {
+                    t.cfg.detached = Some(false);
+                } else {
+                    t.expectations = vec![];
+                }
+            }
+        }
+        // a detached helper followed by a test case that waits
+        if g.chance(20) {
+            for k in 1..d.tests.len() {
+                if d.tests[k - 1].cfg.detached == Some(true) && d.tests[k].cfg.detached != Some(true) {
+                    d.tests[k].cfg.wait = Some(Wait { timeout_ns: *g.pick(&[10 * MS, 200 * MS, 2 * SEC]), path: None });
+                }
+            }
+        }
+        let tests_placeholder: Vec<Test> = vec![];
+        let _ = tests_placeholder;
         let mut sc = Scenario {
             lane: format!("state/{}", i),
             tier: Tier::Lib,
             script_mode: false,
-            docs: vec![doc("state.md", Format::Md, tests)],
+            docs: vec![d],
             cli: Cli::default(),
             sim,
             pretty: false,
